@@ -34,17 +34,17 @@ const vfGenericFS = "fs-mismatch"
 
 // mutation alphabet
 const (
-	vfsWnA = iota // write new valid content to a
-	vfsWsA        // rewrite a with identical bytes
-	vfsWiA        // write invalid content to a
-	vfsWeA        // truncate a (create empty if missing)
-	vfsRmA        // remove a
-	vfsChA        // chmod a
-	vfsMvAB       // rename a -> b
-	vfsMvBA       // rename b -> a
-	vfsWnB        // write new valid content to b
-	vfsRmB        // remove b
-	vfsFail       // next processor call fails
+	vfsWnA  = iota // write new valid content to a
+	vfsWsA         // rewrite a with identical bytes
+	vfsWiA         // write invalid content to a
+	vfsWeA         // truncate a (create empty if missing)
+	vfsRmA         // remove a
+	vfsChA         // chmod a
+	vfsMvAB        // rename a -> b
+	vfsMvBA        // rename b -> a
+	vfsWnB         // write new valid content to b
+	vfsRmB         // remove b
+	vfsFail        // next processor call fails
 	vfsN
 )
 
